@@ -1,7 +1,245 @@
-(* props/C17.v — C17: cross-loop awaiting.  (statements are being added; see XLoopInv.v) *)
+(* props/C17.v — C17: cross-loop awaiting is transparent, runs on the target loop, and
+   completes (ensure_aw / run_aw_threadsafe / loop_in_thread / the per-loop lock table,
+   aiuti/asyncio.py).  ONLY theorem statements about the executable model XLoop.v
+   (the validator the correspondence check runs on every observed log), each closed by a
+   lemma of XLoopSafe.v / XLoopProg.v / XLoopK1.v, with Print Assumptions beneath.
+
+   [run c evs = Some s] : the model accepts the log [evs] (one entry per visible operation:
+   lock, table, loop, pool and caller operations) from the initial state of scenario [c]
+   and ends in state [s].  All statements quantify over ALL accepted logs, i.e. over all
+   schedules of any number of callers with any scripts, forms and mode. *)
 From Coq Require Import List NArith Bool.
 Import ListNotations.
-Require Import Aiuti.XLoop Aiuti.Case_C17.
+Require Import Aiuti.XLoop Aiuti.XLoopInv Aiuti.XLoopSafe Aiuti.XLoopLive Aiuti.XLoopProg Aiuti.XLoopK1.
 
-Example model_runs : run (mk_cfg MClosed [(false, None, FCoro)]) [(TC 0, OBegin); (TC 0, OChk false); (TC 0, ODone 0 (KLibRT, 0))] <> None.
+(* The target loop is never run by two threads at once: at any time at most one thread is
+   inside L.run_forever; a pool thread that runs L (ensure_aw's borrower or loop_in_thread's
+   forever-thread) holds the per-loop lock of L's table entry while it does; every entry
+   into run_forever found the loop idle (k = 0 threads inside), and no pool job ever ended
+   with the "already running" RuntimeError. *)
+Theorem one_runner :
+  forall c evs s, run c evs = Some s ->
+    length (inside s) <= 1 /\
+    (forall t, In t (inside s) -> pool_thread t -> exists l, tbl s = Some l /\ owner s l = Some t) /\
+    (forall t k, In (t, OEnter k) evs -> k = 0) /\
+    (forall t, match jp s t with JBad _ | JPost _ true | JRel true => False | _ => True end).
+Proof. exact one_runner_lemma. Qed.
+Print Assumptions one_runner.
+
+(* Double-checked creation: Lock() is called at most once for L, and every lock the table
+   ever returned / every non-creation lock any thread ever acquired is that one lock. *)
+Theorem lock_unique :
+  forall c evs s, run c evs = Some s ->
+    count_mk evs <= 1 /\
+    exists L, forall t l,
+      In (t, OMklock l) evs \/ In (t, OTbl (Some l)) evs \/ (In (t, OAcq l) evs /\ l <> 0) -> l = L.
+Proof. exact lock_unique_lemma. Qed.
+Print Assumptions lock_unique.
+
+(* Transparency: whenever ensure_aw returns or raises in some thread with outcome o for
+   caller index i, the thread is caller i's, and o is exactly the scripted outcome of ITS OWN
+   awaitable (same value identity / same exception identity, [expected c i]) — unless the
+   target is closed, in which case it is the library's RuntimeError and nothing else. *)
+Theorem result_transparent :
+  forall c evs s, run c evs = Some s ->
+    forall t i o, In (t, ODone i o) evs ->
+      t = TC i /\ i < c_n c /\
+      match c_mode c with MClosed => o = (KLibRT, 0) | _ => o = expected c i end.
+Proof. exact result_transparent_lemma. Qed.
+Print Assumptions result_transparent.
+
+(* closed target: every completed caller got RuntimeError; open target: none did *)
+Theorem closed_target_raises :
+  forall c evs s, run c evs = Some s ->
+    forall t i o, In (t, ODone i o) evs ->
+      (c_mode c = MClosed -> o = (KLibRT, 0)) /\ (c_mode c <> MClosed -> fst o <> KLibRT).
+Proof.
+  intros c evs s H t i o Hin.
+  destruct (result_transparent_lemma c evs s H t i o Hin) as (_ & _ & Ho).
+  split; intros Hm.
+  - now rewrite Hm in Ho.
+  - destruct (c_mode c); try congruence; subst o; unfold expected; destruct (s_raise _); discriminate.
+Qed.
+Print Assumptions closed_target_raises.
+
+(* Every step of every awaitable (its first and its last step) is executed on the target
+   loop (the flag observed from inside the awaitable is true) by the thread that is, at that
+   moment, the one and only thread inside L.run_forever. *)
+Theorem evaluated_on_target :
+  forall c pre t o post s, run c (pre ++ (t, o) :: post) = Some s ->
+    (exists i b, o = OStart i b \/ o = OFin i b) ->
+    (exists i, o = OStart i true \/ o = OFin i true) /\
+    exists s0, run c pre = Some s0 /\ inside s0 = [t].
+Proof. exact evaluated_on_target_lemma. Qed.
+Print Assumptions evaluated_on_target.
+
+(* loop_in_thread, target running via loop_in_thread (mode MForever): it returns only while the
+   forever-thread is inside L; stop() returns only when that thread's job has ended and
+   nobody runs L.  In every mode: stop() returns only after the forever-job ended and the
+   forever-thread is not inside L, and what it reports about is_running is the truth. *)
+Theorem loop_in_thread_contract :
+  forall c pre e post s, run c (pre ++ e :: post) = Some s ->
+    exists s0, run c pre = Some s0 /\
+      (forall b, e = (TM, OLitret b) -> c_mode c = MForever -> b = true /\ inside s0 = [TJM]) /\
+      (forall r j, e = (TM, OStopret r j) ->
+         j = true /\ jp s0 TJM = JEnd /\ ~ In TJM (inside s0) /\ r = running s0 /\
+         (c_mode c = MForever -> r = false /\ inside s0 = [])).
+Proof.
+  intros c pre e post s H. apply run_split in H as (s0 & s1 & H0 & H1 & _).
+  exists s0. split; auto.
+  destruct (InvAB_reach c s0) as [HI HB]; [now exists pre|].
+  split.
+  - intros b -> Em. eapply litret_forever; eauto.
+  - intros r j ->. eapply stopret_contract; eauto.
+Qed.
+Print Assumptions loop_in_thread_contract.
+
+(* ... and in every mode (also when callers race with loop_in_thread): it returns right
+   after, in its own program order, an is_running() check that answered true, and every
+   is_running() that answered true was asked while some thread was inside L. *)
+Theorem loop_in_thread_returns_after_running :
+  forall c pre b post s, run c (pre ++ (TM, OLitret b) :: post) = Some s ->
+    last_tm pre = Some (OChk true) /\
+    forall pre1 t post1, pre = pre1 ++ (t, OChk true) :: post1 ->
+      exists s1, run c pre1 = Some s1 /\ running s1 = true.
+Proof.
+  intros c pre b post s H. apply run_split in H as (s0 & s1 & H0 & H1 & _). split.
+  - eapply lit_after_chk; eauto. simpl in H1. unfold step_m in H1. destruct (mp s0); try discriminate. reflexivity.
+  - intros pre1 t post1 ->. apply run_split in H0 as (s2 & s3 & A & B & _).
+    exists s2. split; auto. eapply chk_true_running; eauto.
+Qed.
+Print Assumptions loop_in_thread_returns_after_running.
+
+(* ---- liveness, in no-deadlock form ---------------------------------------------------
+   [penabled c s] = the operations enabled in s other than loop_in_thread's fruitless spin
+   ("is_running() = false").  "Caller i completes" = its ensure_aw returned or raised. *)
+
+(* target is the caller's own loop: whenever some caller has not completed, something can happen *)
+Theorem completes_own :
+  forall c evs s, run c evs = Some s -> c_mode c = MOwn ->
+    forall i, i < c_n c -> completedb s i = false -> penabled c s <> [].
+Proof. intros c evs s H Em. eapply completes_mode; eauto. Qed.
+Print Assumptions completes_own.
+
+(* target kept running by loop_in_thread until every caller is done *)
+Theorem completes_forever :
+  forall c evs s, run c evs = Some s -> c_mode c = MForever ->
+    forall i, i < c_n c -> completedb s i = false -> penabled c s <> [].
+Proof. intros c evs s H Em. eapply completes_mode; eauto. Qed.
+Print Assumptions completes_forever.
+
+(* every caller so far took the borrow path (nobody saw L "running"): the callers
+   serialise on the per-loop lock and none of them is ever stuck — in any mode *)
+Theorem completes_borrow :
+  forall c evs s, run c evs = Some s -> (forall i, xsub s i = None) ->
+    forall i, i < c_n c -> completedb s i = false -> penabled c s <> [].
+Proof. exact completes_borrow_lemma. Qed.
+Print Assumptions completes_borrow.
+
+(* THE FULL LIVENESS STATEMENT OF THE PROPERTY would be
+     forall c evs s, run c evs = Some s ->
+       forall i, i < c_n c -> completedb s i = false -> penabled c s <> [].
+   It is FALSE of the faithful model (and of the code: known finding K1).  Witness, by
+   computation: two callers, idle target; caller 1 sees L "running" only because caller 0's
+   pool thread borrowed it, schedules its awaitable there; caller 0's awaitable finishes
+   first, run_until_complete returns, L is idle again; caller 1 has not completed and NO
+   operation at all is possible any more (forall e, step = None). *)
+Theorem stranded_refuted :
+  exists c evs s, run c evs = Some s /\ c_mode c = MIdle /\
+    (exists i, i < c_n c /\ completedb s i = false) /\ (forall e, step c s e = None).
+Proof. exact stranded_lemma. Qed.
+Print Assumptions stranded_refuted.
+
+Theorem liveness_refuted :
+  ~ (forall c evs s, run c evs = Some s ->
+       forall i, i < c_n c -> completedb s i = false -> penabled c s <> []).
+Proof. exact liveness_unconditional_false. Qed.
+Print Assumptions liveness_refuted.
+
+(* ... and it holds, in every mode and for any number of callers, under the one hypothesis
+   that excludes K1's scenario class: no caller's is_running() check ever answered true
+   while a BORROWER (an ensure_aw pool thread TJ k) was the thread inside L
+   ([xsub s i] is set, by step_c at caller i's OChk true, to the thread inside L then —
+   see xsub_records_runner below). *)
+Theorem completes_unless_submitted_to_borrowed_loop :
+  forall c evs s, run c evs = Some s -> no_foreign_submit_to_borrowed_loop s ->
+    forall i, i < c_n c -> completedb s i = false -> penabled c s <> [].
+Proof. exact progress_log. Qed.
+Print Assumptions completes_unless_submitted_to_borrowed_loop.
+
+Theorem xsub_records_runner :
+  forall c s i b s', step c s (TC i, OChk b) = Some s' ->
+    b = running s /\ (b = true -> xsub s' i = hd_error (inside s)) /\ (b = false -> xsub s' i = xsub s i).
+Proof. exact xsub_meaning. Qed.
+Print Assumptions xsub_records_runner.
+
+(* "nothing enabled" really means that no operation whatsoever is accepted *)
+Theorem enabled_is_complete :
+  forall c s e s', step c s e = Some s' -> In e (enabled c s).
+Proof.
+  intros c s e s' H. unfold enabled. apply filter_In. split; [eapply cands_complete; eauto|].
+  unfold accepts1. now rewrite H.
+Qed.
+Print Assumptions enabled_is_complete.
+
+(* ---- non-vacuity --------------------------------------------------------------------- *)
+
+(* an accepted log in which two callers complete, one through a borrowed loop and one queued
+   on the per-loop lock (hypotheses of one_runner .. evaluated_on_target, completes_borrow) *)
+Definition ex_cfg : cfg := mk_cfg MIdle [(false, None, FCoro); (true, Some 5%N, FTask)].
+Definition ex_log : list event :=
+  [ (TC 0, OBegin); (TC 0, OChk false); (TC 0, OSubmit (TJ 0)); (TC 1, OBegin); (TC 1, OChk false);
+    (TC 1, OSubmit (TJ 1)); (TJ 0, OTbl None); (TJ 1, OTbl None); (TJ 0, OAcq 0); (TJ 0, OTbl None);
+    (TJ 0, OMklock 1); (TJ 0, ORel 0); (TJ 1, OAcq 0); (TJ 1, OTbl (Some 1)); (TJ 1, ORel 0);
+    (TJ 0, OAcq 1); (TJ 0, OEnter 0); (TJ 0, OStart 1 true); (TJ 0, OStart 0 true); (TJ 0, OFin 0 true);
+    (TJ 0, OExit); (TJ 0, ORel 1); (TJ 1, OAcq 1); (TJ 0, ODlv 0); (TJ 0, OJobend); (TC 0, ODone 0 (KRet, 0));
+    (TJ 1, OEnter 0); (TClk, OAdv 5%N); (TJ 1, OFin 1 true); (TJ 1, OExit); (TJ 1, ORel 1); (TJ 1, ODlv 1);
+    (TJ 1, OJobend); (TC 1, ODone 1 (KExc, 1)) ].
+Example ex_accepted :
+  match run ex_cfg ex_log with
+  | Some s => all_ended ex_cfg s = true /\ (forall i, i < 2 -> xsub s i = None)
+  | None => False
+  end.
+Proof. vm_compute. split; [reflexivity|]. intros [|[|i]] H; reflexivity. Qed.
+
+(* loop_in_thread mode: a log through litret / stop (hypotheses of loop_in_thread_contract, completes_forever) *)
+Definition ex2_cfg : cfg := mk_cfg MForever [(false, Some 5%N, FCoro)].
+Definition ex2_log : list event :=
+  [ (TM, OSubmit TJM); (TM, OChk false); (TJM, OTbl None); (TJM, OAcq 0); (TJM, OTbl None); (TJM, OMklock 1);
+    (TJM, ORel 0); (TJM, OAcq 1); (TM, OSleep); (TM, OChk false); (TJM, OEnter 0); (TM, OSleep); (TM, OChk true);
+    (TM, OLitret true); (TC 0, OBegin); (TC 0, OChk true); (TC 0, OCst); (TJM, OStart 0 true); (TClk, OAdv 5%N);
+    (TJM, OFin 0 true); (TJM, ODlv 0); (TC 0, ODone 0 (KRet, 0)); (TM, OWait); (TM, OCst); (TJM, OExit);
+    (TJM, ORel 1); (TJM, OJobend); (TM, OJoin); (TM, OStopret false true) ].
+Example ex2_accepted :
+  match run ex2_cfg ex2_log with Some s => all_ended ex2_cfg s = true | None => False end.
+Proof. vm_compute. reflexivity. Qed.
+
+(* the own-loop and the closed-target scenarios *)
+Example ex3_accepted :
+  match run (mk_cfg MOwn [(false, None, FCoro); (true, None, FCoro)])
+            [ (TC 0, OBegin); (TC 0, OEnter 0); (TC 1, OBegin); (TC 1, OChk true); (TC 1, OCst);
+              (TC 0, OStart 0 true); (TC 0, OFin 0 true); (TC 0, ODone 0 (KRet, 0));
+              (TC 0, OStart 1 true); (TC 0, OFin 1 true); (TC 0, ODlv 1); (TC 1, ODone 1 (KExc, 1)); (TC 0, OExit) ]
+  with Some s => all_ended (mk_cfg MOwn [(false, None, FCoro); (true, None, FCoro)]) s = true | None => False end.
+Proof. vm_compute. reflexivity. Qed.
+Example ex4_accepted :
+  run (mk_cfg MClosed [(false, None, FCoro)]) [(TC 0, OBegin); (TC 0, OChk false); (TC 0, ODone 0 (KLibRT, 0))] <> None.
 Proof. vm_compute. discriminate. Qed.
+
+(* the model rejects what the property forbids: a second runner, a second lock, a foreign outcome *)
+Example ex_rejects_second_runner :
+  run ex_cfg (firstn 17 ex_log ++ [(TJ 1, OAcq 1)]) = None /\
+  run ex_cfg (firstn 17 ex_log ++ [(TJ 1, OEnter 1)]) = None.
+Proof. vm_compute. split; reflexivity. Qed.
+Example ex_rejects_second_lock :
+  run ex_cfg (firstn 13 ex_log ++ [(TJ 1, OTbl None)]) = None /\
+  run ex_cfg (firstn 13 ex_log ++ [(TJ 1, OMklock 2)]) = None.
+Proof. vm_compute. split; reflexivity. Qed.
+Example ex_rejects_foreign_outcome :
+  run ex_cfg (firstn 25 ex_log ++ [(TC 0, ODone 0 (KExc, 1))]) = None.
+Proof. vm_compute. reflexivity. Qed.
+
+(* the K1 state satisfies everything except the hypothesis of the conditional liveness theorem *)
+Example k1_breaks_only_the_hypothesis :
+  exists s, run k1_cfg k1_log = Some s /\ xsub s 1 = Some (TJ 0) /\ enabled k1_cfg s = [].
+Proof. destruct k1_witness as (s & A & _ & _ & _ & B & _ & C). exists s. auto. Qed.
